@@ -440,6 +440,10 @@ pub fn diff_exact(a: &Decoded, b: &Decoded) -> Option<(String, String, String)> 
                 }
             }
             s.dimension = None;
+            // the list of child elements is structure, not content (an empty <headerFooter>
+            // or <pageMargins/> may be written by one generation and not by the next); the
+            // order of children is the validator's business
+            s.children.clear();
             for r in s.rows.iter_mut() {
                 r.spans = None; // optimisation hint, derived from the cells
             }
